@@ -12,7 +12,8 @@ this with deepcopy / pickle — that is what the correspondence checks.
   layer set <name> <coord> <v>             write through the cell attribute
   layer get <name> <coord>                 read through the cell attribute (= the layer's array entry)
   copy deepcopy|pickle                     side c := side o
-  o <line…> | c <line…>                    the same commands addressed to one side
+  copy2 deepcopy|pickle o|c                side d := a second copy, of the original or of the first copy
+  o <line…> | c <line…> | d <line…>        the same commands addressed to one side
 -/
 open Mesa.Cells
 
@@ -25,6 +26,7 @@ def Side.empty : Side := ⟨DSt.empty, []⟩
 structure CSt where
   o : Side
   c : Option Side
+  d : Option Side      -- a second copy (of the original or of the first copy), alive at the same time
 
 def setAt (vals : List (Coord × Int)) (c : Coord) (v : Int) : List (Coord × Int) :=
   vals.map fun (k, x) => if k == c then (k, v) else (k, x)
@@ -91,13 +93,28 @@ def copyLine (st : CSt) (ws : List String) : CSt × String :=
   match ws with
   | "scenario" :: _ =>
     let (o, out) := sideLine Side.empty ws
-    ({ o := o, c := none }, out)
+    ({ o := o, c := none, d := none }, out)
   | ["copy", how] =>
     if how = "deepcopy" || how = "pickle" then
       match st.o.d.sp with
       | none => (st, "err NoSpace")
       | some _ => ({ st with c := some st.o }, "ok")
     else (st, "bad-op")
+  | ["copy2", how, src] =>
+    if how = "deepcopy" || how = "pickle" then
+      match (if src = "o" then some st.o else if src = "c" then st.c else none) with
+      | none => (st, if src = "o" || src = "c" then "err NoCopy" else "bad-op")
+      | some s0 =>
+        match s0.d.sp with
+        | none => (st, "err NoSpace")
+        | some _ => ({ st with d := some s0 }, "ok")
+    else (st, "bad-op")
+  | "d" :: rest =>
+    match st.d with
+    | none => (st, "err NoCopy")
+    | some d =>
+      let (d', out) := sideLine d rest
+      ({ st with d := some d' }, out)
   | "o" :: rest =>
     let (o, out) := sideLine st.o rest
     ({ st with o := o }, out)
@@ -120,5 +137,5 @@ partial def loop (h : IO.FS.Stream) (out : IO.FS.Stream) (st : CSt) : IO Unit :=
 
 def main : IO Unit := do
   let out ← IO.getStdout
-  loop (← IO.getStdin) out { o := Side.empty, c := none }
+  loop (← IO.getStdin) out { o := Side.empty, c := none, d := none }
   out.flush
